@@ -1214,7 +1214,11 @@ class t2grid(object):
             connection_names = geo.block_connection_name_list
 
         if block_names:
-            self.blocklist = [self.block[name] for name in block_names]
+            # blocks not named (e.g. MINC matrix blocks when ordering by geometry)
+            # stay, after the named ones:
+            named = set(block_names)
+            self.blocklist = [self.block[name] for name in block_names] + \
+                             [blk for blk in self.blocklist if blk.name not in named]
 
         if connection_names:
             connectionlist = []
@@ -1238,7 +1242,10 @@ class t2grid(object):
                         connectionlist.append(con)
                     else:
                         raise Exception("Unknown connection name: " + str(names))
-            self.connectionlist = connectionlist
+            # connections not named stay, after the named ones:
+            named = set([id(con) for con in connectionlist])
+            self.connectionlist = connectionlist + \
+                                  [con for con in self.connectionlist if id(con) not in named]
 
     def rename_blocks(self, blockmap = {}, fix_blocknames = True):
         """Rename blocks according to the specified block mapping. The
